@@ -11,7 +11,7 @@ import json
 from vlib import core, corr
 from props import h3common as hc
 
-DEPENDS = ["H3Parse", "H0", "H3Total", "Builder", "CloseFrame", "CloseEmit", "Base", "Tok", "C16"]
+DEPENDS = ["H3Parse", "H0", "H3Total", "Builder", "CloseFrame", "CloseEmit", "CloseRound", "Base", "Tok", "C16"]
 GENERATORS = ["c16_close", "c13_consts"]
 TRUSTED_BASE = [
     "extraction (ExtrOcamlBasic only; Z kept inductive) + coq/extract/driver.ml for running the models",
@@ -35,7 +35,8 @@ ASSUMPTIONS = [
     "close_frame_emittable: builder as created by the closing round (no flight / total budget), max_datagram_size >= 1200 "
     "(and < 2^62), connection ids <= 20 bytes, the CryptoPair can encrypt a full datagram (crypto_fits: "
     "max_datagram_size <= 1500 for aioquic's CryptoPair), error code and frame type < 2^62, handshake confirmed (1-RTT "
-    "packet only); the reason phrase is ANY string without lone surrogates (H3 reasons are ASCII)",
+    "packet only); close_frame_emittable_any_round: the same configuration hypotheses, any INITIAL / HANDSHAKE packets "
+    "before the 1-RTT one; the reason phrase is ANY string without lone surrogates (H3 reasons are ASCII)",
 ]
 
 _CACHE = {}
